@@ -118,7 +118,11 @@ def install_injection():
     if not STATE["installed"]:
         from guppylang_internals.cfg import analysis
 
-        analysis.set = _make_sched_set()
+        cls = _make_sched_set()
+        analysis.set = cls
+        if hasattr(analysis, "Worklist"):
+            # /repo's own ordered worklist class (introduced by the C10 determinism fix): replace it as well
+            analysis.Worklist = cls
         STATE["installed"] = True
         ok, note = injection_selftest()
         STATE["unused"], STATE["note"] = not ok, note
